@@ -397,8 +397,12 @@ func c17Mirror(tier int) {
 	vOverflow("github.com/lightningnetwork/lnd/lnwallet.CoopCloseBalance")
 	vAssumption("C17(3): channel without HTLCs, both sides hold the same (mirrored) commitment balances in msat and the same commit fee; " +
 		"local+remote+commitFee(+anchors) <= capacity <= 21e6 BTC (C01 conservation); both sides apply the same close fee, payer, sequence and locktime; ideal signatures (a signature is bound to the signed transaction)")
+	// channel type: any 64-bit value; the two bits the close depends on are
+	// case-split (shardable), all other bits stay symbolic
 	ct := vU64("chanType")
-	aInit := vBool("aIsInitiator")
+	cls := vChoice("chanClass", 4)
+	vAssume((ct&c17AnchorBit != 0) == (cls&1 != 0) && (ct&c17TaprootBit != 0) == (cls&2 != 0))
+	aInit := vChoice("aIsInitiator", 2) == 1
 	capacity := c17Amt("capacity")
 	fee := c17Amt("closeFee")
 	commitFee := c17Amt("commitFee")
